@@ -816,13 +816,19 @@ where
             match ch.try_recv() {
                 Ok(Hit(hash, entry, timestamp)) => {
                     #[cfg(mini_moka_verif)]
-                    self.verif_emit(
-                        "read.hit",
-                        None,
-                        Self::verif_info_id(&entry),
-                        hash,
-                        entry.is_admitted() as u64,
-                    );
+                    {
+                        // the key is named through the entry's access-order node (if it has one)
+                        let node_key = entry
+                            .access_order_q_node()
+                            .map(|n| Arc::clone(unsafe { n.as_ref() }.element.key()));
+                        self.verif_emit(
+                            "read.hit",
+                            node_key.as_deref(),
+                            Self::verif_info_id(&entry),
+                            hash,
+                            entry.is_admitted() as u64,
+                        );
+                    }
                     freq.increment(hash);
                     // A recorded read can be applied after a later update of the same
                     // entry. Never move the last accessed time backwards.
